@@ -360,8 +360,6 @@ func (s *State) makeEqual(al, bl []*cmd) {
 					s.subCmdOf = ""
 				}
 				s.addChange("no " + a.orig)
-				// New rule must use index of its own certificate map.
-				b.seq = s.b.lookup["crypto ca certificate map"][b.ref[0]][0].seq
 			}
 			s.addCmd(b)
 		}
@@ -1136,6 +1134,12 @@ func (s *State) deleteUnused() {
 }
 
 func (s *State) printNetspocCmd(c *cmd) string {
+	// Rule of tunnel-group-map and certificate-group-map references
+	// an entry of certificate map by its index.
+	// This index may have been taken from device.
+	if len(c.ref) == 2 && c.typ.ref[0] == "crypto ca certificate map" {
+		c.seq = s.b.lookup["crypto ca certificate map"][c.ref[0]][0].seq
+	}
 	return getPrintableCmd(c, s.b)
 }
 
